@@ -9,6 +9,7 @@ acceptance order = sequence-number order = `q.written`.
 -/
 import RqModel.Lemmas.QueueSvc
 import RqModel.Props.C24
+import RqModel.Gen.QueueSvc
 namespace C23
 open RqModel.QueueSvc
 open RqModel.Queue hiding Step step run mk next init DState mk_inv run_inv next_inv step_inv optStep step'
@@ -116,6 +117,17 @@ theorem wait_returns_after_apply (m : Nat) (b t : Int) (steps : List Step) :
 theorem sequence_numbers_increase (m : Nat) (b t : Int) (steps : List Step) :
     (run (mk m b t) steps).q.written.Pairwise (fun a b => a.seq < b.seq) :=
   (C24.write_numbers_increase _ (inv m b t steps).reach).1
+
+/-- **Shape of the consumer in the current sources** (regenerated): in `runQueue` the only
+`req.Close()` comes after the retry loop, the loop contains exactly one `Execute` call and
+its only `break` is under `err == nil`; `queuedExecute` writes to the queue exactly once
+and waits on the flush channel only after that write. -/
+theorem consumer_shape :
+    RqModel.Gen.QueueSvc.runQueueFound = true ∧ RqModel.Gen.QueueSvc.closeAfterRetryLoop = true ∧
+    RqModel.Gen.QueueSvc.reqCloseCalls = 1 ∧ RqModel.Gen.QueueSvc.executeCallsInLoop = 1 ∧
+    RqModel.Gen.QueueSvc.breaksUnderNilErr = 1 ∧ RqModel.Gen.QueueSvc.otherBreaksInLoop = 0 ∧
+    RqModel.Gen.QueueSvc.queuedExecuteFound = true ∧ RqModel.Gen.QueueSvc.stmtQueueWrites = 1 ∧
+    RqModel.Gen.QueueSvc.waitOnFlushChanAfterWrite = true := by decide
 
 /-! ### non-vacuity: two requests batched together, a failure burst, then success; a waiter -/
 example :
